@@ -179,3 +179,24 @@ CHECKS["C14"] = {
     "assumptions": _SEARCH_ASSUME + ["termination on the implementation is observed through a watchdog (40 checks without "
                                      "progress), the liveness property itself is checked on the model under weak fairness"],
 }
+
+CHECKS["C20"] = {
+    "title": "the CSV log is faithful and a valid prefix at every interruption point",
+    "run": std_run,
+    "models": [
+        {"module": "MC_C20", "cfg": "MC_C20_everyrow_TRUE.cfg", "workers": 4},
+        {"module": "MC_C20", "cfg": "MC_C20_everyrow_FALSE.cfg", "workers": 4},
+        {"module": "MC_C20", "cfg": "MC_C20_onbestonly_FALSE.cfg", "workers": 4, "expect_violation": "is violated"},
+    ],
+    "drivers": [{"module": "harness.drv_c20", "trace": "Trace_C20"}],
+    "shards": {"quick": 1, "thorough": 8},
+    "rule": "one trace per recorder configuration x evaluation history (objectives 1-3 with distinct per-component "
+            "values, default / custom fields, 0-2 extra fields, direct and through SimpleGP.build_recorder, both "
+            "recording modes); the file is re-read through an independent descriptor after every registration; "
+            "plus runs SIGKILLed at random points whose surviving file is validated as a prefix",
+    "assumptions": [
+        "the 'Execution Time' cell is unconstrained; all other cells are compared as strings with the value computed "
+        "from the registered individual",
+        "kill points are sampled in time (6 / 200 kills), the model covers a crash between any two recorder actions",
+    ],
+}
